@@ -168,7 +168,7 @@ func genHist(t *rapid.T, withObjExp, withRace bool) hist {
 		case i < nObj:
 			s.PayloadLen = []int{0, 1, 7, 32}[i%4]
 			if withObjExp && rapid.IntRange(0, 3).Draw(t, "objhasexp") == 0 {
-				s.Exp = rapid.IntRange(0, 5).Draw(t, "objexp")
+				s.Exp = rapid.IntRange(0, 4).Draw(t, "objexp")
 			}
 		case i < nObj+nLock:
 			s.Kind = uni.Lock
@@ -304,6 +304,13 @@ func genHist(t *rapid.T, withObjExp, withRace bool) hist {
 		for k := 0; k < h.N; k++ {
 			chain = append(chain, op{K: "gc", Shard: k})
 		}
+		// sometimes let epochs pass (object / lock expirations) and collect again
+		if ne := rapid.IntRange(0, 3).Draw(t, "chain-epochs"); ne > 0 {
+			for k := 0; k < ne; k++ {
+				chain = append(chain, op{K: "epoch"})
+			}
+			chain = append(chain, op{K: "gc", Shard: rapid.IntRange(0, h.N-1).Draw(t, "chain-gc2")})
+		}
 		pos := make([]int, len(chain))
 		for i := range pos {
 			pos[i] = rapid.IntRange(0, len(h.Ops)).Draw(t, "chain-pos")
@@ -362,6 +369,10 @@ type run struct {
 	// raced[o]: o was the common target of interleaved lock/tombstone puts
 	raced   map[int]bool
 	lastOp  string
+	// known reports (and records) open known-finding classes; excluded counts
+	// objects dropped from the assertion because of them.
+	known    func(string) bool
+	excluded int
 	raceLog string
 	races   map[int]string // op index -> blob write sequence of the race
 	viol    *violation
@@ -400,17 +411,47 @@ func (r *run) knowers(o int) []int {
 	return res
 }
 
-func (r *run) fail(fp, format string, a ...any) {
+// fail records a violation concerning object o. When it belongs to a class
+// listed as an open known finding, the object is no longer asserted in this
+// replay (counted as excluded) and the replay goes on.
+func (r *run) fail(o int, fp, format string, a ...any) {
+	if fp != "" && r.known != nil && r.known(fp) {
+		r.poisoned[o] = "known finding " + fp
+		r.excluded++
+		r.labels["known:"+fp] = true
+		return
+	}
 	if r.viol == nil {
 		r.viol = &violation{fp: fp, msg: fmt.Sprintf(format, a...)}
 	}
 }
 
+// hiddenByExpiry reports the narrow class fpExpired: the locked object has its
+// own expiration which has passed, a shard holding it does not know the lock
+// (other shards do), and the engine read says "not found".
+func (r *run) hiddenByExpiry(o int, cls string, holders []int) bool {
+	if !r.objExpired(o) || cls != engx.NotFound {
+		return false
+	}
+	kn := r.knowers(o)
+	if len(kn) == 0 {
+		return false
+	}
+	for _, h := range holders {
+		known := false
+		for _, k := range kn {
+			known = known || k == h
+		}
+		if !known && !r.noMeta(h) {
+			return true
+		}
+	}
+	return false
+}
+
 // class returns the known-finding class a violation on object o belongs to.
 func (r *run) class(o int) string {
 	switch {
-	case r.objExpired(o):
-		return fpExpired
 	case r.raced[o] && r.lastOp == "gc":
 		// exactly the recorded class: a tombstone interleaved with the lock was
 		// accepted by a shard before the lock reached that shard and was rolled
@@ -445,14 +486,20 @@ func (r *run) checkAll(step string) {
 			cls, got, err := r.e.Get(a)
 			switch {
 			case cls != engx.OK:
-				r.fail(fp, "after %s: locked object o%d is not retrievable: Get = %v (class %s); physical holders %v, lock known on shards %v, modes %s",
+				if r.hiddenByExpiry(o, cls, holders) {
+					fp = fpExpired
+				}
+				r.fail(o, fp, "after %s: locked object o%d is not retrievable: Get = %v (class %s); physical holders %v, lock known on shards %v, modes %s",
 					step, o, err, cls, holders, r.knowers(o), r.modesStr())
 			case !engx.SameObject(got, r.objs[o]):
-				r.fail(fp, "after %s: locked object o%d read with different bytes", step, o)
+				r.fail(o, fp, "after %s: locked object o%d read with different bytes", step, o)
 			}
 		}
 		if r.viol != nil {
 			return
+		}
+		if r.poisoned[o] != "" {
+			continue
 		}
 		if r.anyNoMeta() {
 			r.labels["skip-islocked-some-shard-degraded"] = true
@@ -460,7 +507,7 @@ func (r *run) checkAll(step string) {
 		}
 		l, err := r.e.E.IsLocked(context.Background(), a)
 		if err != nil || !l {
-			r.fail(fp, "after %s: IsLocked(o%d) = %v, %v while an accepted lock is live (epoch %d); lock known on shards %v",
+			r.fail(o, fp, "after %s: IsLocked(o%d) = %v, %v while an accepted lock is live (epoch %d); lock known on shards %v",
 				step, o, l, err, r.epoch, r.knowers(o))
 		}
 	}
@@ -594,7 +641,7 @@ func (r *run) exec(i int, o op) {
 				r.labels["tomb-while-lock-knowers-degraded"] = true
 				r.poisoned[tgt] = "tombstone put while every shard knowing the lock had no metabase"
 			case err == nil:
-				r.fail(r.class(tgt), "%s: tombstone for locked object o%d was accepted (Put = nil); lock known on shards %v, modes %s", step, tgt, kn, r.modesStr())
+				r.fail(tgt, r.class(tgt), "%s: tombstone for locked object o%d was accepted (Put = nil); lock known on shards %v, modes %s", step, tgt, kn, r.modesStr())
 			}
 		}
 	case "race":
@@ -666,7 +713,7 @@ func (r *run) exec(i int, o op) {
 				}
 			}
 			if wasLive && len(knBefore) > 0 && errT == nil {
-				r.fail("", "%s: tombstone for locked object o%d was accepted (Put = nil)", step, tgt)
+				r.fail(tgt, "", "%s: tombstone for locked object o%d was accepted (Put = nil)", step, tgt)
 			}
 		}
 		if errL == nil {
@@ -716,7 +763,7 @@ func (r *run) allHoldersNoMeta(o int) bool {
 	return true
 }
 
-func replay(h hist) (*run, error) {
+func replay(h hist, known func(string) bool) (*run, error) {
 	dir, err := os.MkdirTemp("", "c08-")
 	if err != nil {
 		return nil, err
@@ -734,7 +781,7 @@ func replay(h hist) (*run, error) {
 	defer e.Close()
 	e.LogCalls = true
 	r := &run{h: h, e: e, tracked: map[int][]lockRec{}, poisoned: map[int]string{}, orders: map[int]string{},
-		labels: map[string]bool{}, stage: map[int]int{}, raced: map[int]bool{}, races: map[int]string{}}
+		labels: map[string]bool{}, stage: map[int]int{}, raced: map[int]bool{}, races: map[int]string{}, known: known}
 	for _, s := range h.Objs {
 		r.objs = append(r.objs, uni.Build(s))
 	}
@@ -774,10 +821,11 @@ func check(t *rapid.T, rec *ev.Recorder, h hist) {
 	}()
 	staged := false
 	for rep := 0; rep < R; rep++ {
-		r, err := replay(h)
+		r, err := replay(h, rec.Known)
 		if err != nil {
 			ev.Inconclusive("C08 engine setup: %v", err)
 		}
+		rec.Excluded(int64(r.excluded))
 		for l := range r.labels {
 			labels[l] = true
 		}
@@ -791,11 +839,6 @@ func check(t *rapid.T, rec *ev.Recorder, h hist) {
 			staged = staged || st == 3
 		}
 		if r.viol != nil {
-			if r.viol.fp != "" && rec.Known(r.viol.fp) {
-				rec.Excluded(1)
-				labels["known:"+r.viol.fp] = true
-				continue
-			}
 			if r.viol.fp != "" {
 				r.viol.msg = "[class " + r.viol.fp + "] " + r.viol.msg
 			}
@@ -819,12 +862,8 @@ func check(t *rapid.T, rec *ev.Recorder, h hist) {
 func TestC08Histories(t *testing.T) {
 	rec := ev.New("C08", "histories")
 	defer rec.Flush()
-	withObjExp := !ev.IsOpen("C08", fpExpired)
 	rapid.Check(t, func(t *rapid.T) {
-		if !withObjExp {
-			rec.Excluded(0)
-		}
-		h := genHist(t, withObjExp, false)
+		h := genHist(t, true, false)
 		check(t, rec, h)
 	})
 }
@@ -833,9 +872,8 @@ func TestC08Histories(t *testing.T) {
 func TestC08Race(t *testing.T) {
 	rec := ev.New("C08", "race")
 	defer rec.Flush()
-	withObjExp := !ev.IsOpen("C08", fpExpired)
 	rapid.Check(t, func(t *rapid.T) {
-		h := genHist(t, withObjExp, true)
+		h := genHist(t, true, true)
 		check(t, rec, h)
 	})
 }
@@ -953,21 +991,17 @@ func TestC08RaceWindow(t *testing.T) {
 		seen := map[string]bool{}
 		labels := map[string]bool{}
 		for try := 0; try < maxTries; try++ {
-			r, err := replay(h)
+			r, err := replay(h, rec.Known)
 			if err != nil {
 				ev.Inconclusive("C08 engine setup: %v", err)
 			}
+			rec.Excluded(int64(r.excluded))
 			for l := range r.labels {
 				labels[l] = true
 			}
 			seen[r.races[raceAt]] = true
 			covered[fmt.Sprintf("%d|%s|%d|%v|%s", c.n, c.sched, c.holder, c.add, r.races[raceAt])] = true
 			if r.viol != nil {
-				if r.viol.fp != "" && rec.Known(r.viol.fp) {
-					rec.Excluded(1)
-					labels["known:"+r.viol.fp] = true
-					continue
-				}
 				t.Fatalf("C08 violated [class %s]: %s\nhistory:\n%strace of the failing replay:\n  %s",
 					r.viol.fp, r.viol.msg, h, strings.Join(r.trace, "\n  "))
 			}
@@ -988,7 +1022,7 @@ func TestC08RaceWindow(t *testing.T) {
 			rec.Sample(map[string]any{"combo": fpr, "write_sequences": keys(seen)})
 		}
 	}
-	rec.Set("racewindow_distinct_schedule_order_combinations", len(covered))
+	rec.LabelN("racewindow-distinct-(schedule,placement,write-sequence)-combinations", int64(len(covered)))
 	rec.Set("exhaustive_schedules", true)
 }
 
